@@ -29,7 +29,7 @@ typedef cds::sync::spin_lock<cds::backoff::yield> spin_t;
 //                        cause 4: vanished in an operation that did not resize
 // The oracle ignores these events; they only refine the signature under which a rejected history is reported.
 static std::function<void(int)> g_audit; static int g_op_flags = 0;
-struct ck_stat : public cds::intrusive::cuckoo::empty_stat { void onResizeCall() const { if (g_audit) g_audit(2); g_op_flags |= 1; if (g_audit) xev("resize"); } };   // audited runs: the resize is visible in the history (ignored by the oracle)
+struct ck_stat : public cds::intrusive::cuckoo::empty_stat { void onResizeCall() const { if (g_audit) g_audit((g_op_flags & 1) ? 1 : 2); g_op_flags |= 1;   /* a second resize of the same operation: what is missing now was lost by the first one */ if (g_audit) xev("resize"); } };   // audited runs: the resize is visible in the history (ignored by the oracle)
 template <class MP, class PS, unsigned SH, bool ORD> struct ck_t : public cc::cuckoo::traits { typedef ck_stat stat; typedef cds::opt::hash_tuple<item_hash, hash2> hash; typedef MP mutex_policy; typedef PS probeset_type; static unsigned int const store_hash = SH;
   typedef typename std::conditional<ORD, item_less, cds::opt::none>::type less; typedef typename std::conditional<ORD, cds::opt::none, item_eq>::type equal_to; typedef cds::atomicity::item_counter item_counter; };
 template <class S, class... A> static void lock_set(const Program& P, int hm, A... a) { g_hash_mode = hm;
